@@ -12,7 +12,7 @@ RULE = ("corpus strings (language pinned when the test row names one, autodetect
         "language ('D <own month> YYYY HH:MM', numeric 'DD.MM.YYYY HH:MM', 'YYYY-MM-DD', relative phrase of the language) x "
         "rewritings: pad both ends; double every space; tab / newline / NBSP for every space; mixed run ' \\t\\xa0 '; leading "
         "newline + trailing tab/newline; trailing ':' (only if the string does not end in one); and, for strings with ASCII "
-        "digits, every digit replaced by the same digit of another Unicode Nd block (quick: Arabic-Indic, Persian, Devanagari, "
+        "digits, every digit replaced by the same digit of another Unicode Nd block (plus one combined whitespace+digit rewriting per string; 15% of the strings under NORMALIZE=False) (quick: Arabic-Indic, Persian, Devanagari, "
         "Bengali, Thai, Tibetan, Myanmar, full-width + 4 seeded random blocks; thorough: all blocks). Oracle: (date, period, "
         "locale) equal to the un-rewritten run in the same process (5% also in the opposite order). non-trivial distinct = "
         "distinct (string, language, rewriting) whose un-rewritten run produced a date.")
@@ -52,13 +52,15 @@ def shards(tier, seed):
 _P = {}
 
 
-def parser(lang):
+def parser(lang, norm=True):
     from dateparser.date import DateDataParser
 
-    if lang not in _P:
-        _P[lang] = DateDataParser(languages=[lang], settings={"RELATIVE_BASE": B}) if lang else \
-            DateDataParser(settings={"RELATIVE_BASE": B})
-    return _P[lang]
+    if (lang, norm) not in _P:
+        st = {"RELATIVE_BASE": B}
+        if not norm:
+            st["NORMALIZE"] = False
+        _P[lang, norm] = DateDataParser(languages=[lang], settings=st) if lang else DateDataParser(settings=st)
+    return _P[lang, norm]
 
 
 def outcome(p, s):
@@ -98,7 +100,10 @@ def norm_ws(x):
 
 
 def norm_digits(x):
-    return "".join(str(unicodedata.digit(ch)) if unicodedata.category(ch) == "Nd" else ch for ch in x)
+    import regex as re
+
+    x = "".join(str(unicodedata.digit(ch)) if unicodedata.category(ch) == "Nd" else ch for ch in x)
+    return re.sub(r"[\s:]+", " ", x.replace("\xa0", " ")).strip()
 
 
 def classify(s, s2, kind):
@@ -115,7 +120,10 @@ def classify(s, s2, kind):
 
 
 def check_string(ctx, rnd, s, lang, blocks, origin):
-    p = parser(lang)
+    norm = rnd.random() >= 0.15      # 15% of the strings under NORMALIZE=False (the cleaning steps run before normalisation)
+    p = parser(lang, norm)
+    if not norm:
+        ctx.count("strings_under_NORMALIZE_False")
     base = outcome(p, s)
     ctx.ran()
     if base[0] == "EXC":
@@ -126,6 +134,10 @@ def check_string(ctx, rnd, s, lang, blocks, origin):
     rewrites = [("ws", n, f(s)) for n, f in WS.items()]
     if any(c in "0123456789" for c in s):
         rewrites += [("digits", "U+%04X" % z, todig(s, z)) for z in blocks]
+        # both at once: a whitespace rewriting of the digit-substituted string
+        wn = rnd.choice(sorted(WS))
+        z = rnd.choice(blocks)
+        rewrites.append(("digits", "%s+U+%04X" % (wn, z), WS[wn](todig(s, z))))
     for kind, name, s2 in rewrites:
         if s2 == s:
             continue
@@ -139,7 +151,7 @@ def check_string(ctx, rnd, s, lang, blocks, origin):
         ctx.ran()
         if got != base:
             label, steps = classify(s, s2, kind)
-            ctx.violation({"string": s, "language": lang, "rewriting": name, "rewritten": s2, "origin": origin},
+            ctx.violation({"string": s, "language": lang, "rewriting": name, "rewritten": s2, "origin": origin, "normalize": norm},
                           got, base, "%s-variance:%s" % ("whitespace" if kind == "ws" else "digit-script", label),
                           {"kind": kind, "rewriting": name if kind == "ws" else "digits", "steps": "+".join(steps),
                            "base_parsed": base[0] is not None})
@@ -218,7 +230,7 @@ def replay_case(ctx, v):
     import random
 
     c = v["case"]
-    p = parser(c["language"])
+    p = parser(c["language"], c.get("normalize", True))
     base, got = outcome(p, c["string"]), outcome(p, c["rewritten"])
     if got != base:
         kind = v["features"]["kind"]
